@@ -20,14 +20,14 @@ import (
 func TestMain(m *testing.M) { kit.Main(m) }
 
 type Case struct {
-	Schema  ref.Node       `json:"schema"`
-	Plan    gen.RowPlan    `json:"plan"`
-	Opts    gen.WriterOpts `json:"opts"`
-	Ops     []gen.Op       `json:"ops"`
-	Enc     int            `json:"enc,omitempty"` // 0 none, 1 encrypted footer, 2 signed plaintext footer
-	Short   bool           `json:"short"`  // failing sink reports io.ErrShortWrite instead of its own error
-	Stride  int            `json:"stride"` // offsets tried: every Stride-th (1 = all)
-	Phase   int            `json:"phase"`
+	Schema ref.Node       `json:"schema"`
+	Plan   gen.RowPlan    `json:"plan"`
+	Opts   gen.WriterOpts `json:"opts"`
+	Ops    []gen.Op       `json:"ops"`
+	Enc    int            `json:"enc,omitempty"` // 0 none, 1 encrypted footer, 2 signed plaintext footer
+	Short  bool           `json:"short"`         // failing sink reports io.ErrShortWrite instead of its own error
+	Stride int            `json:"stride"`        // offsets tried: every Stride-th (1 = all)
+	Phase  int            `json:"phase"`
 }
 
 func genCase(t *rapid.T) Case {
